@@ -6,6 +6,7 @@ from checks import mergelib as m
 META = {
     "harness_bins": ["nkeval", "c06prio"],
     "extract": "C05.v",
+    "model_dir": "c05",
     "technique": "Coq lemmas stating each documented rule (priority order = MergePriority::cmp, higher wins, equal priorities recurse, unequal atoms conflict, optional iff both, hidden if either, one-sided fields kept, export of hidden/optional/missing/conflicting fields) on the data-merge algebra; the algebra is tied to the interpreter by exhaustive enumeration of a small universe of binary merges and the priority order by a table dumped from the running MergePriority::cmp",
     "level_text": "coq/Props/C06.v states the rule list of doc/manual/merging.md as theorems about the algebra of coq/Merge/Algebra.v (for all priorities incl. arbitrary rationals, all field contents). The algebra is the independent executable reading of the manual; the tie is (a) MergePriority::cmp/eq evaluated by the real code on a grid of priorities vs pcmp_src (and vs the canonical order used in the proofs: theorem C06_priority_order_is_cmp), (b) every binary merge over a bounded universe (1-2 field names, 2 atoms + nested record, the five priority forms, optional, not_exported, missing value, a contract) evaluated by the interpreter and by the extracted algebra, exported tree / error kind compared (exhaustive single-field universe in the thorough tier, seeded sample in quick).",
     "level_note": "Trusted: Coq kernel; extraction; harness nkeval/c06prio; the enumeration in checks/c06.py. The algebra is modelled (a reading of merge.rs + the manual), tied by correspondence only. Error kinds are compared as sets (the interpreter reports the first error it meets).",
